@@ -265,3 +265,10 @@ _R15 = {
 for _k, (_t, _l) in _R15.items():
     _a, _b, _c = CLAIMED[_k]
     CLAIMED[_k] = (_a + _t, _b + _l, _c)
+
+_R16 = {
+ "C10": ("; re-alignment window of AllMatches (FR-hi); obligatory positions unknown to the Go re-alignment (OBL, known finding)", ""),
+}
+for _k, (_t, _l) in _R16.items():
+    _a, _b, _c = CLAIMED[_k]
+    CLAIMED[_k] = (_a + _t, _b + _l, _c)
